@@ -13,7 +13,7 @@ crate, timeout_s, harnesses = sys.argv[1], int(sys.argv[2]), sys.argv[3:]
 scratch = core.Scratch()
 done, lost = core.inject_kani(scratch, only_crates={crate})
 print("lost anchors:", lost)
-recs, meta = core.run_kani(scratch, crate, harnesses, timeout_s, jobs=min(4, len(harnesses)))
+recs, meta = core.run_kani(scratch, crate, harnesses, timeout_s, jobs=max(2, min(4, len(harnesses))))
 for h, r in recs.items():
     print(h, r["status"], r.get("reason"), r.get("solver_s"), r.get("checks_total"), [c["description"][:80] for c in r.get("failed_checks", [])][:3])
 print(json.dumps({k: v for k, v in meta.items() if k != "output_tail"})[:600])
